@@ -6,10 +6,13 @@ import (
 	"slices"
 	"sort"
 
+	"github.com/hknutzen/Netspoc-Approve/go/pkg/errlog"
 	"github.com/pkg/diff/myers"
 )
 
 func diffConfig(a, b *panVsys, vsysPath string) []string {
+	checkRecursiveGroups(a)
+	checkRecursiveGroups(b)
 	sortMembers(a)
 	sortMembers(b)
 	ab := rulesPairFrom(a, b)
@@ -671,6 +674,50 @@ func (ab *rulesPair) genUniqGroupNames() {
 			}
 		}
 	}
+}
+
+// Abort if some group contains itself, directly or indirectly.
+// Otherwise this would lead to endless recursion.
+func checkRecursiveGroups(v *panVsys) {
+	check := func(typ string, names []string, members map[string][]string) {
+		const (
+			visiting = iota + 1
+			done
+		)
+		state := make(map[string]int)
+		var visit func(name string)
+		visit = func(name string) {
+			l, found := members[name]
+			if !found || state[name] == done {
+				return
+			}
+			if state[name] == visiting {
+				errlog.Abort("Recursive definition of %s '%s'", typ, name)
+			}
+			state[name] = visiting
+			for _, m := range l {
+				visit(m)
+			}
+			state[name] = done
+		}
+		for _, name := range names {
+			visit(name)
+		}
+	}
+	var names []string
+	members := make(map[string][]string)
+	for _, g := range v.AddressGroups {
+		names = append(names, g.Name)
+		members[g.Name] = g.Members
+	}
+	check("address-group", names, members)
+	names = nil
+	members = make(map[string][]string)
+	for _, g := range v.ServiceGroups {
+		names = append(names, g.Name)
+		members[g.Name] = g.Members
+	}
+	check("service-group", names, members)
 }
 
 func sortMembers(v *panVsys) {
